@@ -83,6 +83,24 @@ PROPS = {
                         'a context whose writer failed is only required to have failed (prefix rule is C10)',
                         'an item defined but never used is not judged (the statement bounds emission by "at most once" and "before first use")'],
     },
+    'C13': {
+        'world': 'render',
+        'level': 'exploration',
+        'builds': {'default': {}},
+        'tiers': {
+            'quick': {'runs': 8000, 'params': {'max_nodes': 40, 'max_contexts': 3, 'max_steps': 2000}, 'per_run_timeout': 5.0},
+            'thorough': {'runs': 300000, 'params': {'max_nodes': 80, 'max_contexts': 4, 'max_steps': 5000}, 'per_run_timeout': 10.0, 'shrink_budget_s': 300},
+        },
+        'rule': 'one run = 1-3 contexts (tasks interleaved at writer seams), each rendering 1-2 tape-drawn call trees into one writer: calls with / without block x callees '
+                '{slot, slot twice, no slot, pass-down, slot-around, hand-written that renders children 0-2 times, once handle, templ.Flush, writer-swapping wrapper, '
+                'hand-written callees that ignore children: Raw, ComponentFunc; generated Join wrapper} x positions (top level, inside a block, inside once/flush bodies, Join '
+                'elements, sibling after a call); every block and callee carries a unique id; the marker structure of each document is compared token by token with a lexical-scoping '
+                'reference model. distinct = event-log hash; non-trivial = at least four model tokens',
+        'real': RENDER_REAL,
+        'stubbed': ['io.Writer (park at every write)', 'sync.Pool (simsync.Pool)'],
+        'assumptions': ['the history dimension (call trees against the lexical model) does the finding; the schedule dimension contributes cross-context independence (DESIGN section 2)',
+                        'templ.Join is never given a block itself (what its elements should receive is not defined by the statement); a hand-written layer that passes its context on passes its children on'],
+    },
     'C14': {
         'world': 'render',
         'level': 'exploration',
